@@ -3,14 +3,14 @@ from vcheck import *
 
 META = {
     "category": "proof",
-    "text": "PROVED (Coq, all inputs): the semantic-token encoder SemanticBuilder::build (sort, overlap flattening, delta encoding) — for ANY pushed tokens the stream a client decodes is exactly the sorted+flattened list (decode_build), strictly ordered, never overlapping, without empty tokens (build_ordered_no_overlap), and identical to the sorted input when that was already disjoint (build_disjoint_input); de-duplication by start alone (the code before the fix) does not prevent overlap (overlap_possible_refuted, replayed on the real server and fixed); the selection-range chain builder push_growing_range yields strictly growing ranges for any candidate sequence (selection_chain_strict). The encoder model is tied to the real push_data/build by an exact correspondence through a cfg hook. VERIFIED CHECKER, NOT A PROOF ABOUT THE HANDLERS: for document symbols, folding ranges, selection ranges, completion main edits, workspace edits and decoded semantic tokens versus document and legend, the validity predicates are Gallina booleans whose meaning is proved (symbols_nested_spec, folds_valid_spec, selection_strictly_growing_spec, completion_edit_spec, edits_disjoint_spec, tokens_valid_spec) and are evaluated by coqc on the results the real in-process server returns; that the handlers always produce valid results is explored by search (generated and bundled std documents x all structure-returning requests x positions), not proved.",
-    "note": "Trusted: Coq kernel; hand model of semantic_token_builder.rs and push_growing_range (encoder tied by exact correspondence on generated push sequences; slice::sort_unstable_by_key assumed to sort); u32 arithmetic modelled unbounded; the python conversion of JSON results to Coq terms; the Rust search oracle for the parts not re-checked in Coq (generic range-in-document walk over every result). Open finding: the whole-document range ends at (line_count, 0) (document_lsp_range_refuted proves it is never inside the document). Axioms: none.",
+    "text": "PROVED (Coq, all inputs): the semantic-token encoder SemanticBuilder::build (sort, overlap flattening, delta encoding) — for ANY pushed tokens the stream a client decodes is exactly the sorted+flattened list (decode_build), strictly ordered, never overlapping, without empty tokens (build_ordered_no_overlap), and identical to the sorted input when that was already disjoint (build_disjoint_input); de-duplication by start alone (the code before the fix) does not prevent overlap (overlap_possible_refuted, replayed on the real server and fixed); the selection-range chain builder push_growing_range yields strictly growing ranges for any candidate sequence (selection_chain_strict). The encoder model (including the per-line split of multi-line tokens for clients without multilineTokenSupport, with UTF-16 line lengths) is tied to the real push_data/build by an exact correspondence through a cfg hook (random and fixed cases with non-ASCII/astral text on non-last lines, LF/CRLF/CR); the selection-chain model is tied by comparing, for every sampled position, the real server's chain with growing_chain of the candidate ranges (token and ancestors, computed on the real Vfs tree) converted by the C22 model. VERIFIED CHECKER, NOT A PROOF ABOUT THE HANDLERS: for document symbols, folding ranges, selection ranges, completion main edits, workspace edits and decoded semantic tokens versus document and legend, the validity predicates are Gallina booleans whose meaning is proved (symbols_nested_spec, folds_valid_spec, selection_strictly_growing_spec, completion_edit_spec, edits_disjoint_spec, tokens_valid_spec, and ranges_checked_spec for the generic walk: EVERY range or position of EVERY result kind for the document lies inside it with start <= end, minus the one named known class) and are evaluated by coqc on the results the real in-process server returns; that the handlers always produce valid results is explored by search (generated and bundled std documents x all structure-returning requests x positions), not proved.",
+    "note": "Trusted: Coq kernel; hand model of semantic_token_builder.rs and push_growing_range (encoder tied by exact correspondence on generated push sequences; slice::sort_unstable_by_key assumed to sort); u32 arithmetic modelled unbounded; the python conversion of JSON results to Coq terms; the harness's JSON walk that collects the ranges of every result; ranges that point into OTHER files (std library, workspace library) are checked by the Rust oracle only. Open finding: the whole-document range ends at (line_count, 0) (document_lsp_range_refuted proves it is never inside the document). Axioms: none.",
     "technique": "Coq proof (induction with an ordered/disjoint-from-(line,col) invariant over the sweep) about a hand-written Gallina transcription + exact model-vs-implementation correspondence through a cfg hook + Gallina validity checkers with proved specifications run on real server results + oracle search on the real in-process server",
 }
 
 THEOREMS = [("decode_build", "theorem"), ("build_ordered_no_overlap", "theorem"), ("build_disjoint_input", "theorem"),
             ("overlap_possible_refuted", "refutation"), ("selection_chain_strict", "theorem"),
-            ("document_lsp_range_refuted", "refutation"),
+            ("document_lsp_range_refuted", "refutation"), ("ranges_checked_spec", "theorem"),
             ("symbols_nested_spec", "theorem"), ("folds_valid_spec", "theorem"), ("selection_strictly_growing_spec", "theorem"),
             ("completion_edit_spec", "theorem"), ("edits_disjoint_spec", "theorem"), ("tokens_valid_spec", "theorem"),
             ("build_example", "example")]
@@ -25,10 +25,11 @@ TRUSTED = [
     "(line, col, Reverse(length), typ, modifiers) returns the unique sorted permutation; the LSP 3.17 delta decoding as transcribed in [decode]",
     "python conversion of JSON results to Coq terms (checks/C26.py) and the harness's flattening of results (selection chains, main edits of completion items, per-file edit lists)",
     "search oracle inside harness/vh_ls/src/bin/c26.rs (independent Rust re-implementation of the same predicates, plus the generic walk "
-    "'every returned range lies inside its document' over all results, which is not re-checked in Coq)",
+    "'every returned range lies inside its document' for ranges pointing into other files; for the document itself the walk is re-checked in Coq)",
 ]
 
-PART = {1: "semantic tokens", 2: "document symbols", 3: "folding ranges", 4: "selection ranges", 5: "completion edits", 6: "workspace edits"}
+PART = {1: "semantic tokens", 2: "document symbols", 3: "folding ranges", 4: "selection ranges", 5: "completion edits", 6: "workspace edits",
+        7: "selection chain (model of push_growing_range disagrees)", 8: "ranges of some result (outside the document or start after end)"}
 
 
 def P(p):
@@ -61,11 +62,14 @@ def obs_to_coq(o):
     sels = [coq_list([R(r) for r in s[2]]) for s in o.get("selections", [])]
     comps = ["(%s, %s)" % (P((c[0], c[1])), coq_list([R(r) for r in c[2]])) for c in o.get("completions", [])]
     edits = [coq_list([R(r) for r in es]) for es in o.get("edit_sets", [])]
+    selm = ["(%s, %s)" % (coq_list(["(%d,%d)" % (c[0], c[1]) for c in s[3]]), coq_list([R(r) for r in s[2]]))
+            for s in o.get("selections", []) if len(s) > 3 and s[3] is not None]
+    ranges = [R(r) for r in o.get("ranges", [])]
     return ("{| c_text := %s; c_legend := (%d,%d); c_tokens_sl := %s; c_tokens_ml := %s; c_symbols := %s; c_folds := %s; "
-            "c_selections := %s; c_completions := %s; c_edit_sets := %s |}") % (
+            "c_selections := %s; c_completions := %s; c_edit_sets := %s; c_sel_model := %s; c_ranges := %s |}") % (
         coq_list([str(x) for x in o["t"]]), o["legend"][0], o["legend"][1],
         coq_list([str(x) for x in o.get("tokens_sl", [])]), coq_list([str(x) for x in o.get("tokens_ml", [])]),
-        coq_list(syms), coq_list(folds), coq_list(sels), coq_list(comps), coq_list(edits))
+        coq_list(syms), coq_list(folds), coq_list(sels), coq_list(comps), coq_list(edits), coq_list(selm), coq_list(ranges))
 
 
 def bcase_to_coq(c):
@@ -95,6 +99,18 @@ def encoder_correspondence(ck, binpath, n):
         ps = sorted(p[:2] for p in c["pushes"])
         if any(ps[i + 1][0] < ps[i][1] for i in range(len(ps) - 1)):
             nest += 1
+    def is_split(c):
+        if c["ml"]:
+            return False
+        txt = "".join(chr(x) for x in c["t"])
+        b = txt.encode("utf8")
+        for p in c["pushes"]:
+            seg = b[p[0]:p[1]].decode("utf8", "replace")
+            if ("\n" in seg or "\r" in seg) and not seg.split("\n")[0].isascii():
+                return True
+        return False
+    ck.cov["distribution"]["encoder_corr_split_cases_non_ascii_on_non_last_line"] = sum(1 for c in cases if is_split(c))
+    ck.cov["distribution"]["encoder_corr_fixed_split_cases"] = sum(1 for c in cases if c.get("fixed"))
     ck.cov["distribution"]["encoder_corr_cases"] = len(cases)
     ck.cov["distribution"]["encoder_corr_cases_with_overlapping_pushes"] = nest
     if cases:
@@ -141,16 +157,24 @@ def verified_checker(ck, obs):
             ps = [int(x) for x in re.findall(r"\d+", parts[k + 1] if k + 1 < len(parts) else "")] if parts else []
             names = ", ".join(PART.get(p, str(p)) for p in ps) or "?"
             o = obs[i]
+            if ps == [7]:
+                ck.tie_broken("the real server's selection chain differs from the model of push_growing_range on document %s" % o.get("doc"),
+                              json.dumps({"doc": o.get("doc"), "text": "".join(chr(x) for x in o["t"]), "selections": o.get("selections")})[:4000])
+                continue
             ck.violation("verified-checker-rejects|%s" % "+".join(str(p) for p in ps),
                          "the verified checker rejects the real server's %s for document %s" % (names, o.get("doc")),
                          {"doc": o.get("doc"), "text": "".join(chr(x) for x in o["t"]), "parts": ps})
-    items = 0
+    items = nsel = nrng = 0
     for o in obs:
-        items += len(o.get("tokens_sl", [])) // 5 + len(o.get("tokens_ml", [])) // 5 + len(o.get("symbols") or []) + len(o.get("folds") or []) \
+        nsel += sum(1 for x in o.get("selections", []) if len(x) > 3 and x[3] is not None)
+        nrng += len(o.get("ranges", []))
+        items += len(o.get("ranges", [])) + len(o.get("tokens_sl", [])) // 5 + len(o.get("tokens_ml", [])) // 5 + len(o.get("symbols") or []) + len(o.get("folds") or []) \
             + len(o.get("selections", [])) + len(o.get("completions", [])) + len(o.get("edit_sets", []))
         ck.count_case(("checker", tuple(o["t"])), nontrivial=len(o["t"]) > 0)
     ck.cov["distribution"]["verified_checker_documents"] = len(obs)
     ck.cov["distribution"]["verified_checker_items"] = items
+    ck.cov["distribution"]["selection_chains_compared_with_model"] = nsel
+    ck.cov["distribution"]["ranges_checked_in_coq"] = nrng
     if obs:
         o = obs[min(len(obs) - 1, 11)]
         ck.sample({"kind": "observation checked by the Gallina predicates", "doc": o.get("doc"), "text": "".join(chr(x) for x in o["t"])[:160],
@@ -191,7 +215,7 @@ def main(argv):
             encoder_correspondence(ck, bins["c26"], ck.scale(250, 6000))
         if ck.broken:
             ck.deep = True
-        obs = run_search(ck, bins["c26"], ck.scale(40, 400), ck.scale(10, 30), ck.scale(4, 6), ck.scale(24, 200))
+        obs = run_search(ck, bins["c26"], ck.scale(40, 400), ck.scale(10, 30), ck.scale(4, 6), ck.scale(20, 120))
         if have_corr and obs:
             verified_checker(ck, obs)
     ck.finish(
